@@ -88,6 +88,36 @@ def documented_effect(ln, regs, off, length, label_off):
     return r, pc % M32, scratch
 
 
+def label_case(args):
+    """programs whose immediates depend on labels (incl. label arithmetic): C04 / C12 / C20 views of
+    what label_check computes"""
+    from harness import label_check
+    seedv, idx, tier = args
+    os.environ['VERIF_SEED'] = str(seedv)
+    asm = progs.get_asm()
+    rnd = common.rng('semlabel:%d' % idx)
+    lines = label_check.gen_label_program(rnd, arith=(idx % 2 == 0))
+    r = label_check.evaluate(asm, lines, idx)
+    out = dict(idx=idx, src=r['src'], lines=r['lines'], problems=[], status=r['status'], n_exec=r['n_refs'],
+               n_compressed=0, n_eligible=0, kinds=r['kinds'], label_stream=True)
+    txt = [l.text for l in lines]
+    if r['status'][False] == 'ok' and r['status'][True] != 'ok':
+        el = r['err_line'][True]
+        out['problems'].append(('C12', 'assembles without -c but with -c fails ({} at line {}: {!r})'.format(
+            r['status'][True], el, txt[el - 1].strip() if el and el <= len(txt) else None), txt[el - 1] if el and el <= len(txt) else None))
+    if r['status'][False] == 'ok' and r['status'][True] == 'ok':
+        if r['size'][True] > r['size'][False]:
+            out['problems'].append(('C20', 'binary grows with -c: {} -> {} bytes'.format(r['size'][False], r['size'][True]), None))
+        for name, v in r['labels'][False].items():
+            if r['labels'][True].get(name, v) > v:
+                out['problems'].append(('C20', 'label {} moves up with -c: {} -> {}'.format(name, v, r['labels'][True][name]), None))
+        bad_nc = set(t for p, c, m, t in r['problems'] if not c)
+        for p, c, m, t in r['problems']:
+            if c and t not in bad_nc:
+                out['problems'].append(('C04', 'correct without -c, wrong with -c: ' + m, t))
+    return out
+
+
 def one_case(args):
     seedv, idx, tier = args
     os.environ['VERIF_SEED'] = str(seedv)
@@ -230,6 +260,8 @@ def run_sem(prop, tier, replay):
     ctx = mp.get_context('fork')
     with ctx.Pool(min(16, os.cpu_count() or 4)) as pool:
         results = pool.map(one_case, args, chunksize=4)
+        if prop in ('C04', 'C12', 'C20'):
+            results += pool.map(label_case, [(common.seed(), i, tier) for i in range(n // 2)], chunksize=4)
     kf = known.Known(prop)
     for r in results:
         rep.evaluations += 1
@@ -239,11 +271,13 @@ def run_sem(prop, tier, replay):
         rep.nontrivial((tuple(r['kinds']), tuple(sorted(r['status'].items())), r['n_compressed'] > 0))
         for c, st in r['status'].items():
             rep.count('assemble_%s_%s' % ('c' if c else 'nc', st))
-        for p, msg in r['problems']:
+        for pr in r['problems']:
+            p, msg = pr[0], pr[1]
+            ltxt = pr[2] if len(pr) > 2 else None
             if p not in OWN[prop]:
                 rep.count('other_property_problem_' + p)
                 continue
-            case = dict(program=r['src'], lines=r['lines'], problem=msg, property=p)
+            case = dict(program=r['src'], lines=r['lines'], problem=msg, property=p, line=ltxt, compress=True)
             if kf.matches(case):
                 continue
             rep.violation('{}: {}'.format(p, msg), dict(case=case))
